@@ -68,13 +68,13 @@ Theorem c08_edge_energy_spec_bev : forall (en : @engine QN) (sv : @service QN) f
 Proof. exact bev_edge. Qed.
 
 (* the speed handed to the predictor: table speed * the product of the conversion factors involved;
-   relative to the exact SI conversion of the table speed that product is [tau], within 1 % of 1 for
+   relative to the exact SI conversion of the table speed that product is [tau], within 0.3 % of 1 for
    all 2160 unit configurations and exactly 1 when every unit is the base unit *)
 Theorem c08_speed_is_tau_times_table_speed : forall (en : @engine QN) ftu (sv : @service QN) (r : pmr QN) (v : Q),
   spec_speed en ftu sv r v == tau en ftu sv (pm_su r) * (v * (si_speed (en_su en) / si_speed (pm_su r))).
 Proof. exact spec_speed_tau. Qed.
 Theorem c08_tau_within_tolerance : forall esu edu etu ftu ssu msu,
-  Qabs (tau (VehicleSpec.mk_engine esu edu etu) ftu (VehicleSpec.mk_service ssu) msu - 1) <= (1 # 100) * Qabs 1.
+  Qabs (tau (VehicleSpec.mk_engine esu edu etu) ftu (VehicleSpec.mk_service ssu) msu - 1) <= (3 # 1000) * Qabs 1.
 Proof. exact tau_within. Qed.
 Theorem c08_tau_base_units :
   tau (VehicleSpec.mk_engine MetersPerSecond Meters Seconds) Seconds (VehicleSpec.mk_service MetersPerSecond) MetersPerSecond == 1.
@@ -186,6 +186,32 @@ Theorem c08_state_model_phev : forall (en : @engine QN) (cs cd : pmr QN) (cap st
   extend QN [] (EnergyTraversal.state_features QN (PHEV cs cd cap st bu) (speed_features QN en))
   = Ok (sm_phev (en_tu en) (en_du en) (as_soc_percent QN st cap) bu (energy_rate_energy_unit (pm_eru cs))).
 Proof. exact canonical_phev. Qed.
+
+(* end to end for a battery vehicle: query value -> update_from_query -> state_features -> initial state ->
+   any route: the charge starts at the query's value, every edge follows the law, the charge never leaves [0, 100] *)
+Theorem c08_bev_end_to_end : forall (en : @engine QN) (sv : @service QN) (r : pmr QN) (cap st : Q) bu (q : Q),
+  pm_cache r = None -> rate_proper r -> 0 < cap -> 0 <= q -> q <= 100 ->
+  forall es, Forall (edge_ok en sv) es ->
+  exists v' sm st0 states,
+    update_from_query QN (BEV r cap st bu) (QNumber q) = Ok v'
+    /\ extend QN [] (EnergyTraversal.state_features QN v' (speed_features QN en)) = Ok sm
+    /\ initial_state QN sm = st0
+    /\ slot sm st0 n_soc == q
+    /\ run_edges QN (speed_traverse QN en) sv v' es st0 sm ([], []) = map (@Ok (state QN)) states
+    /\ chain (edge_law en sv v' sm) es st0 states
+    /\ Forall (fun x => in_0_100 (slot sm x n_soc)) states.
+Proof.
+  intros en sv r cap st bu q Hnc Hp Hc H0 H1 es Hes.
+  set (s0 := as_soc_percent QN (starting_energy QN q cap) cap).
+  destruct (route_bev en sv (en_tu en) (en_du en) r cap (starting_energy QN q cap) s0 bu bu Hnc Hp Hc es Hes 0 s0 0 0 [] [])
+    as [states [Hrun [Hchain _]]].
+  exists (BEV r cap (starting_energy QN q cap) bu), (sm_bev (en_tu en) (en_du en) s0 bu), [0; s0; 0; 0], states.
+  split; [exact (bev_start_accepted r cap st bu q H0 H1)|].
+  split; [reflexivity|]. split; [reflexivity|].
+  split; [exact (start_soc_value q cap Hc H0 H1)|].
+  split; [exact Hrun|]. split; [exact Hchain|].
+  exact (soc_range_bev en sv (en_tu en) (en_du en) r cap _ s0 bu bu es _ states Hchain).
+Qed.
 
 (* ------------------------------------------------------------------ best case *)
 Theorem c08_best_case_spec : forall (v : vehicle QN) (d : Q) du,
@@ -357,6 +383,7 @@ Print Assumptions c08_start_soc_non_numeric.
 Print Assumptions c08_start_soc_missing_phev.
 Print Assumptions c08_bev_default_100.
 Print Assumptions c08_start_soc_is_query_value.
+Print Assumptions c08_bev_end_to_end.
 Print Assumptions c08_state_model_bev.
 Print Assumptions c08_state_model_ice.
 Print Assumptions c08_state_model_phev.
